@@ -7,7 +7,7 @@ import (
 func init() {
 	Runners["C16"] = fileRunnerEnum(func(p *harness.Program) Result { return RunC16(p, false) })
 	harness.Specs["C16"] = &harness.PropSpec{
-		ID: "C16", Test: "TestC16", Kind: "file", Level: "fault_enumeration",
+		ID: "C16", Test: "TestC16", Kind: "file", Level: "fault_enumeration", FuzzTargets: []string{"FuzzC16"}, FuzzSeconds: 180,
 		Quick: 480, Thorough: 20000,
 		Rule: "evaluations = generated histories; after a chosen successful commit of each history (both header slots describe intact states there) the disk " +
 			"image is copied and one header page is damaged: single bit flips of the 84 header bytes (all 672 per slot in thorough, sampled in quick), byte-prefix " +
